@@ -67,6 +67,14 @@ MUTANTS = [
     m('C15', 'sort_size_descending', (DO, "            attrs = sorted(self.attrs, key=self.size)", "            attrs = sorted(self.attrs, key=self.size, reverse=True)")),
     m('C15', 'marginalize_sorted', (DO, "        proj = [a for a in self.attrs if not a in attrs]", "        proj = sorted(a for a in self.attrs if not a in attrs)")),
     m('C15', 'datavector_ignores_weights', (DS, "        ans = np.histogramdd(self.df.values, bins, weights=self.weights)[0]", "        ans = np.histogramdd(self.df.values, bins)[0]")),
+    # ---- C12 ------------------------------------------------------------
+    m('C12', 'no_fill_in_edges', (JT, "            edges |= tmp\n", "            pass\n")),
+    m('C12', 'min_weight_spanning_tree', (JT, "complete.add_edge(c1, c2, weight=-wgt)", "complete.add_edge(c1, c2, weight=wgt)")),
+    m('C12', 'mp_order_no_backflow_exclusion', (JT, "                if m1[1] == m2[0] and m1[0] != m2[1]:", "                if m1[1] == m2[0]:")),
+    m('C12', 'mp_order_dependency_reversed', (JT, "                    edges.add( (m1, m2) )", "                    edges.add( (m2, m1) )")),
+    m('C12', 'fill_in_added_after_removal', (JT, "            G.add_edges_from(tmp)\n            G.remove_node(node)", "            G.remove_node(node)")),
+    m('C12', 'tree_skips_zero_weight_edges', (JT, "            wgt = len(set(c1) & set(c2))\n            complete.add_edge(c1, c2, weight=-wgt)", "            wgt = len(set(c1) & set(c2))\n            if wgt > 0: complete.add_edge(c1, c2, weight=-wgt)")),
+    m('C12', 'separator_one_sided', (JT, "return { (i,j) : tuple(set(i)&set(j)) for i,j in self.mp_order() }", "return { (i,j) : tuple(set(i)&set(j)) for i,j in self.tree.edges() }")),
 ]
 
 
